@@ -135,7 +135,8 @@ func flatten1(t types.Type) []Leaf {
 	case *types.Pointer, *types.Map, *types.Chan, *types.Signature, *types.Interface:
 		return []Leaf{{"", SInt, t}}
 	case *types.Slice:
-		return []Leaf{{".base", SInt, tInt}, {".off", SInt, tInt}, {".len", SInt, tInt}, {".cap", SInt, tInt}}
+		// the .cap leaf remembers the slice type (used for the address-space bound)
+		return []Leaf{{".base", SInt, tInt}, {".off", SInt, tInt}, {".len", SInt, tInt}, {".cap", SInt, t}}
 	case *types.Array:
 		var out []Leaf
 		for _, l := range flatten(u.Elem()) {
